@@ -103,6 +103,69 @@ def gen_config(rng, idx):
     return dict(idx=idx, terms=terms, ops=ops)
 
 
+def gen_config_seq(rng, idx):
+    """a configuration whose PDO map is what the REAL Terminal.parse_pdos makes of SII PDO categories 50 / 51: the
+    entries of a sync manager follow each other bit by bit, with gap entries (index 0) of 1-8 bits in between.  The
+    true place of every entry is computed here from the lengths alone; the terminal object gets only the category
+    bytes.  (Added after a seeded change - gap entries no longer advancing the bit position - passed C19, whose
+    maps had all been written by hand.)"""
+    from struct import pack
+    nterm = rng.choice((1, 2))
+    positions = rng.sample(range(1, 60), nterm)
+    terms, ops = [], []
+    key = [0]
+    for i in range(nterm):
+        t = dict(position=positions[i], use_fmmu=rng.random() < .5, in_off=0x1100 + 0x40 * i,
+                 out_off=0x1000 + 0x40 * i, pdos=[], members=[], eeprom={})
+        for sm, cat in (("OUT", 51), ("IN", 50)):
+            entries, bitpos, real = [], 0, []
+            for _ in range(rng.randint(2, 6)):
+                r = rng.random()
+                if r < 0.3:                              # a gap
+                    bits = rng.choice((1, 2, 3, 8, 16)) if bitpos % 8 == 0 else 8 - bitpos % 8
+                    entries.append((0, 0, bits))
+                elif r < 0.55:                           # single bits up to the byte boundary
+                    for _b in range(rng.randint(1, 8 - bitpos % 8)):
+                        key[0] += 1
+                        idx_ = (0x7000 if sm == "OUT" else 0x6000) + key[0]
+                        entries.append((idx_, 1, 1))
+                        real.append((idx_, 1, bitpos // 8, bitpos % 8))
+                        bitpos += 1
+                    continue
+                else:
+                    if bitpos % 8:
+                        entries.append((0, 0, 8 - bitpos % 8))
+                        bitpos += 8 - bitpos % 8
+                    nb = rng.choice((1, 2, 4, 8))
+                    key[0] += 1
+                    idx_ = (0x7000 if sm == "OUT" else 0x6000) + key[0]
+                    entries.append((idx_, 0x11, 8 * nb))
+                    real.append((idx_, 0x11, bitpos // 8, UNSIGNED[nb]))
+                    bitpos += 8 * nb
+                    continue
+                bitpos += entries[-1][2]
+            size = max(1, -(-bitpos // 8))
+            t["in_sz" if sm == "IN" else "out_sz"] = size
+            body = b"".join(pack("<HBBBB2x", ix, sub, 0, 0, bits) for ix, sub, bits in entries)
+            t["eeprom"][str(cat)] = list(pack("<HBbBBH", 0x1A00 if sm == "IN" else 0x1600, len(entries),
+                                              3 if sm == "IN" else 2, 0, 0, 0) + body)
+            for ix, sub, off, what in real:
+                t["pdos"].append(dict(index=ix, sub=sub, sm=sm, off=off, what=what))
+        terms.append(t)
+    allp = [(ti, p) for ti, t in enumerate(terms) for p in t["pdos"]]
+    for j in range(min(len(allp), rng.choice((2, 3, 4, 5)))):
+        ti, p = allp.pop(rng.randrange(len(allp)))
+        kind = "read" if p["sm"] == "IN" or rng.random() < 0.25 else "write"
+        name = f"m{j}"
+        terms[ti]["members"].append(dict(name=name, path="proc", index=p["index"], sub=p["sub"], size=None, coe=0,
+                                         sm3=0, sm2=0))
+        what = p["what"]
+        dvfmt = rng.choice("BHIQ") if isinstance(what, int) else what
+        ops.append(dict(kind=kind, term=ti, member=name, sm=p["sm"], off=p["off"], what=what, dvfmt=dvfmt,
+                        linked=False, dev=0))
+    return dict(idx=idx, terms=terms, ops=ops, sequential=True)
+
+
 # ---- building the real objects from a configuration -----------------------------------------------
 
 def build_objects(cfg):
@@ -133,7 +196,14 @@ def build_objects(cfg):
         o.use_fmmu = t["use_fmmu"]
         o.pdo_in_sz, o.pdo_out_sz = t["in_sz"], t["out_sz"]
         o.pdo_in_off, o.pdo_out_off = t["in_off"], t["out_off"]
-        o.pdos = {(p["index"], p["sub"]): (SM[p["sm"]], p["off"], p["what"]) for p in t["pdos"]}
+        if "eeprom" in t:
+            # the map is what the real parse_pdos makes of the category bytes (no mailbox: the SII path)
+            import asyncio
+            o.eeprom = {int(k): bytes(v) for k, v in t["eeprom"].items()}
+            o.has_mailbox = lambda: False
+            asyncio.run(o.parse_pdos())
+        else:
+            o.pdos = {(p["index"], p["sub"]): (SM[p["sm"]], p["off"], p["what"]) for p in t["pdos"]}
         tobjs.append(o)
     devs = []
     for di in sorted({o["dev"] for o in cfg["ops"]}):
@@ -226,12 +296,13 @@ def run(ctx):
     cases, meta = [], []
     built_ok = 0
     for ci in range(nconf):
-        cfg = gen_config(gen, ci)
+        # every fifth configuration takes its PDO map from the real parse_pdos over generated SII categories
+        cfg = gen_config_seq(gen, ci) if ci % 5 == 3 else gen_config(gen, ci)
         prepare(cfg)
         vrng = random.Random(ci * 7919 + 1) if ci % 4 else ctx.rng      # a quarter of the value sets: seeded
         info = dict(conf=ci, nterm=len(cfg["terms"]), ops=[{k: o[k] for k in
                     ("kind", "term", "sm", "off", "what", "dvfmt", "path", "linked", "dev")} for o in cfg["ops"]],
-                    fmmu=[t["use_fmmu"] for t in cfg["terms"]])
+                    fmmu=[t["use_fmmu"] for t in cfg["terms"]], sequential=bool(cfg.get("sequential")))
         try:
             ec1, t1, d1 = build_objects(cfg)
             slow = FG.build_slow(ec1, d1)
